@@ -64,7 +64,8 @@ namespace c18
         virtual size_t align() const = 0; // the allocator's static alignment member
         virtual bool is_default() const = 0;
         virtual size_t max_size() const = 0;
-        virtual AllocResult allocate(size_t n) = 0;
+        // via: 0 a.allocate(n), 1 a.allocate(n, hint), 2 allocator_traits::allocate(a, n), 3 allocator_traits::allocate(a, n, hint)
+        virtual AllocResult allocate(size_t n, int via = 0) = 0;
         virtual void deallocate(void* p, size_t n) = 0;
         virtual void deallocate_rebound(void* p, size_t n) = 0; // through aligned_allocator<U, Align> built from this one
         // operator==/!= against aligned_allocator<U, 1 << (3 + other_align_idx)>, U = char|double
